@@ -1,5 +1,6 @@
 """C04 - text comparison passes exactly when texts agree modulo declared exclusions."""
 import json
+import os
 
 import core
 import cfcommon as cf
@@ -128,6 +129,9 @@ class C04(core.Prop):
             got = get_encoding(case['path'], case['enc'])
             if case['enc'] is None and not case['path'].lower().endswith('.pdf') and got != 'utf-8':
                 fail('default-encoding', 'no encoding given for %r: files are read as %r, documented default utf-8' % (case['path'], got))
+            if case['enc'] is None and os.path.splitext(case['path'])[1].lower() == '.pdf' and got != 'iso-8859-1':
+                fail('default-encoding', 'no encoding given for the PDF file %r (extensions are compared without regard to case): '
+                     'read as %r, not iso-8859-1' % (case['path'], got), 'default-encoding:pdf')
             return F
         if case['entry'].startswith('raw'):
             # files that cannot be decoded as asked and differ: whatever the comparison does (refuse, fail), it does not pass
